@@ -22,6 +22,18 @@ def enc_bytes(v):
     return int.from_bytes(b'\x01' + bytes(v), 'big') + 256
 
 
+def range_values(v):
+    """[ints] for a call range(<int literals>) (the builtin, positional arguments only), else None"""
+    if isinstance(v, ast.Call) and isinstance(v.func, ast.Name) and v.func.id == 'range' and not v.keywords \
+            and 1 <= len(v.args) <= 3 and all(isinstance(a, ast.Constant) and type(a.value) is int for a in v.args):
+        try:
+            r = range(*[a.value for a in v.args])
+        except ValueError:
+            return None
+        return list(r) if len(r) <= 64 else None
+    return None
+
+
 def module_constants(rel, names):
     """Values of module-level names, each bound exactly once by `a = const` or `a, b = c1, c2`."""
     mod = parse(rel)
@@ -46,17 +58,27 @@ def module_constants(rel, names):
                 if isinstance(x, ast.Name) and x.id in names:
                     if node not in mod.body:
                         raise TranslateError('%s: %s is assigned outside module level (line %d)' % (rel, x.id, node.lineno))
-                    if not isinstance(node, ast.Assign) or len(node.targets) != 1:
+                    if isinstance(node, ast.AnnAssign):          # NAME: type = literal
+                        if node.value is None or not isinstance(node.target, ast.Name):
+                            raise TranslateError('%s: annotated %s without a value' % (rel, x.id))
+                        pairs = [(node.target, node.value)]
+                    elif not isinstance(node, ast.Assign) or len(node.targets) != 1:
                         raise TranslateError('%s: unexpected kind of assignment to %s' % (rel, x.id))
-                    t0, v = node.targets[0], node.value
-                    if isinstance(t0, ast.Name):
-                        pairs = [(t0, v)]
-                    elif isinstance(t0, ast.Tuple) and isinstance(v, ast.Tuple) and len(t0.elts) == len(v.elts):
-                        pairs = list(zip(t0.elts, v.elts))
                     else:
-                        raise TranslateError('%s: unexpected shape of the assignment at line %d' % (rel, node.lineno))
+                        t0, v = node.targets[0], node.value
+                        if isinstance(t0, ast.Name):
+                            pairs = [(t0, v)]
+                        elif isinstance(t0, (ast.Tuple, ast.List)) and isinstance(v, (ast.Tuple, ast.List)) and len(t0.elts) == len(v.elts):
+                            pairs = list(zip(t0.elts, v.elts))
+                        elif isinstance(t0, (ast.Tuple, ast.List)) and range_values(v) is not None and len(range_values(v)) == len(t0.elts):
+                            pairs = [(t, ast.Constant(value=i)) for t, i in zip(t0.elts, range_values(v))]      # a, b, c = range(3)
+                        else:
+                            raise TranslateError('%s: unexpected shape of the assignment at line %d' % (rel, node.lineno))
                     for tt, vv in pairs:
                         if isinstance(tt, ast.Name) and tt.id == x.id:
+                            if isinstance(vv, ast.UnaryOp) and isinstance(vv.op, ast.USub) and isinstance(vv.operand, ast.Constant) \
+                                    and type(vv.operand.value) is int:
+                                vv = ast.Constant(value=-vv.operand.value)
                             if not isinstance(vv, ast.Constant):
                                 raise TranslateError('%s: %s is not a literal constant' % (rel, x.id))
                             if x.id in found:
